@@ -37,6 +37,9 @@ impl FdOpts {
     }
 }
 
+/// A non-FD variable that is bound to a structure of FD variables (at most one per program).
+pub const STRUCT_VAR: VarIx = 90;
+
 /// FD variables are V(1)..V(k); V(0) is the query variable.
 pub fn gen_program(w: &mut Rng, o: &FdOpts) -> Program {
     let k = 1 + w.below(o.max_vars as usize) as u32;
@@ -77,6 +80,7 @@ pub fn gen_program(w: &mut Rng, o: &FdOpts) -> Program {
     };
     let nc = w.below(o.max_constraints as usize + 1);
     let mut constraints = vec![];
+    let mut struct_defs: Vec<G> = vec![];
     for _ in 0..nc {
         let mut used = vec![];
         let c = match w.below(12) {
@@ -98,7 +102,21 @@ pub fn gen_program(w: &mut Rng, o: &FdOpts) -> Program {
             11 if o.allow_neq => {
                 let a = operand(w, &mut used);
                 let b = operand(w, &mut used);
-                G::Neq(a, b)
+                if w.chance(1, 3) {
+                    // a disequality between a structure of FD variables and a structure of numbers:
+                    // written out, or through a variable that is bound to the structure
+                    let c = operand(w, &mut used);
+                    let lhs = T::list(vec![a, c]);
+                    let rhs = T::list(vec![T::I(w.range(lo, hi)), T::I(w.range(lo, hi))]);
+                    if struct_defs.is_empty() && w.chance(1, 2) {
+                        struct_defs.push(G::Eq(T::V(STRUCT_VAR), lhs));
+                        G::Neq(T::V(STRUCT_VAR), rhs)
+                    } else {
+                        G::Neq(lhs, rhs)
+                    }
+                } else {
+                    G::Neq(a, b)
+                }
             }
             _ => G::Ltefd(operand(w, &mut used), operand(w, &mut used)),
         };
@@ -121,6 +139,8 @@ pub fn gen_program(w: &mut Rng, o: &FdOpts) -> Program {
         constraints.push(G::Conde(vec![c1, c2]));
     }
     goals.extend(constraints);
+    let has_struct = !struct_defs.is_empty();
+    goals.extend(struct_defs);
     // query term
     let nvis = if o.allow_hidden { 1 + w.below(k as usize) } else { k as usize };
     let mut vis: Vec<VarIx> = vars.clone();
@@ -168,6 +188,10 @@ pub fn gen_program(w: &mut Rng, o: &FdOpts) -> Program {
     };
     goals.push(G::Eq(T::V(0), qterm));
     w.shuffle(&mut goals);
+    let mut vars = vars;
+    if has_struct {
+        vars.push(STRUCT_VAR);
+    }
     Program { nq: 1, defs: vec![], body: vec![G::Fresh(vars, goals)] }
 }
 
@@ -383,7 +407,54 @@ pub struct Expected {
 
 /// Brute-force the program: every assignment of the FD variables over the union of the domains
 /// mentioned for them. Returns None when the program is outside what R3 understands.
+fn subst_t(t: &T, v: VarIx, by: &T) -> T {
+    match t {
+        T::V(x) if *x == v => by.clone(),
+        T::Cons(h, tl) => T::cons(subst_t(h, v, by), subst_t(tl, v, by)),
+        T::Cmp(k, a, b) => T::cmp(*k, subst_t(a, v, by), subst_t(b, v, by)),
+        other => other.clone(),
+    }
+}
+
+fn subst_g(g: &G, v: VarIx, by: &T) -> G {
+    let st = |t: &T| subst_t(t, v, by);
+    let sg = |gs: &Vec<G>| gs.iter().map(|x| subst_g(x, v, by)).collect::<Vec<G>>();
+    match g {
+        G::Eq(a, b) => G::Eq(st(a), st(b)),
+        G::Neq(a, b) => G::Neq(st(a), st(b)),
+        G::Conj(gs) => G::Conj(sg(gs)),
+        G::Fresh(vs, gs) => G::Fresh(vs.clone(), sg(gs)),
+        G::Conde(cs) => G::Conde(cs.iter().map(|c| sg(c)).collect()),
+        other => other.clone(),
+    }
+}
+
+/// Replace the structure variable (if any) by the structure it is bound to: `s == [x, y]` is a
+/// definition, not a constraint, for the brute-force semantics.
+fn inline_struct(p: &Program) -> Program {
+    let (vars, goals) = match p.body.as_slice() {
+        [G::Fresh(vs, gs)] if vs.contains(&STRUCT_VAR) => (vs, gs),
+        _ => return p.clone(),
+    };
+    let def = goals.iter().find_map(|g| match g {
+        G::Eq(T::V(s), t) if *s == STRUCT_VAR => Some(t.clone()),
+        _ => None,
+    });
+    let def = match def {
+        Some(d) => d,
+        None => return p.clone(),
+    };
+    let goals2: Vec<G> = goals
+        .iter()
+        .filter(|g| !matches!(g, G::Eq(T::V(s), _) if *s == STRUCT_VAR))
+        .map(|g| subst_g(g, STRUCT_VAR, &def))
+        .collect();
+    let vars2: Vec<VarIx> = vars.iter().cloned().filter(|v| *v != STRUCT_VAR).collect();
+    Program { nq: p.nq, defs: p.defs.clone(), body: vec![G::Fresh(vars2, goals2)] }
+}
+
 pub fn brute_force(p: &Program) -> Option<Expected> {
+    let p = &inline_struct(p);
     let qterm = query_term(p)?;
     let vars: Vec<VarIx> = match p.body.as_slice() {
         [G::Fresh(vs, _)] => vs.clone(),
